@@ -124,7 +124,7 @@ def main(tier, seed):
     rep = C.Reporter(PID, tier, seed)
     C.build(['repo'])
     C.sweep_stale_tmp()
-    n = 4000 if tier == 'quick' else 60000
+    n = 4000 if tier == 'quick' else 120000
     rundir = C.mktmp(PID)
     _RUN.update(tier=tier, seed=seed, dir=rundir)
     results = C.pmap(_case, list(range(n)), chunksize=4, stop_after_bad=60,
